@@ -88,6 +88,18 @@ Theorem C14_llo_agreed_round : forall h check codec_ok cf seq prev_bytes (ss : l
     else if bool_decide (k ∈ rm_votes (o_defs prev) target) then None else o_defs prev !! k.
 Proof. exact OutcomeEndToEnd.llo_agreed_round. Qed.
 Print Assumptions C14_llo_agreed_round.
+Theorem C14_llo_stays_at_target : forall h check codec_ok cf seq prev_bytes (ss : list OutcomeEndToEnd.lsender) prev next target,
+  ReportsNoPanic.bok prev_bytes -> OutcomeEndToEnd.lsenders_ok codec_ok cf seq prev_bytes ss -> 1 < seq ->
+  decode_outcome (c_pver cf) prev_bytes = Ok prev -> o_stage prev = Production -> verify_defs codec_ok target = true ->
+  (forall i rms ups vals, In (OutcomeEndToEnd.LCorrect i rms ups vals) ss -> OutcomeEndToEnd.oi_expected i = target) ->
+  (length (List.filter (fun p : option observation * bool => negb (snd p)) (OutcomeEndToEnd.tagged check codec_ok cf seq prev_bytes ss)) <= c_f cf)%nat ->
+  (c_f cf < length (List.filter (fun p : observation * bool => snd p)
+                     (StepTheorems.accept_tagged false (OutcomeEndToEnd.tagged check codec_ok cf seq prev_bytes ss))))%nat ->
+  o_defs prev = target -> (size target <= chan_cap)%nat ->
+  outcome_step h cf seq prev (map fst (OutcomeEndToEnd.tagged check codec_ok cf seq prev_bytes ss)) = Ok next -> o_stage next <> Retired ->
+  o_defs next = target.
+Proof. exact OutcomeEndToEnd.llo_stays_at_target. Qed.
+Print Assumptions C14_llo_stays_at_target.
 Example C14_nv_agreed_round :
   decode_outcome (c_pver NvHistory.nv_cf) NvE2E.e6_prev_bytes = Ok NvE2E.e14_prev /\ o_stage NvE2E.e14_prev = Production /\
   verify_defs (fun _ => true) NvE2E.e14_target = true /\
